@@ -94,7 +94,17 @@ def run(ck):
                 return None
             return st
 
+        # a path on which the connection is known to have nothing queued (a predicate over toWrite answered "no entry") has nothing
+        # to resume
+        nothing_queued = set()
+        for lf_ in prog.lambdas_in(g) + [h_ for c_ in g.events("call") for h_ in prog.resolve_call(c_) if h_.blocks and h_.cls == g.cls]:
+            rs_ = list(lf_.events("return"))
+            if rs_ and all(("f:" + T + "toWrite") in (r_.get("refs") or []) and "!=" in (r_.get("t") or "") for r_ in rs_):
+                nothing_queued |= set(lib.result_edges(g, lf_.id if lf_.is_lambda else lf_.base, False)) | set(lib.result_edges(g, lf_.base, False))
+
         def edge(st, blk, k, succ):
+            if (blk.id, k) in nothing_queued:
+                return None
             if succ in heads:
                 missing.append(blk.id)
                 return None
